@@ -461,6 +461,11 @@ pub fn build(
             for region in &regions {
                 let name = &region.name.as_deref().unwrap_or("unnamed");
                 let alignment = region.type_ref.alignment(&semantic.type_registry).unwrap();
+                if alignment == 0 {
+                    anyhow::bail!(
+                        "field `{name}` of type `{resolvee_path}` has a type with an alignment of zero"
+                    );
+                }
                 if last_address % alignment != 0 {
                     anyhow::bail!(
                         "field `{name}` of type `{resolvee_path}` is located at 0x{last_address:X}, which is not divisible by {alignment} (the alignment of the type of the field)"
